@@ -485,6 +485,18 @@ func (e *evalCtx) specCall(name string, args []ast.Expr) Val {
 		v := e.eval(a)
 		switch sp.Params[i] {
 		case "Int":
+			if v.K == kFunc {
+				ts = append(ts, e.c.fnTerm(v))
+				continue
+			}
+			if v.K == kIface || v.K == kMap || v.K == kOpaque {
+				ts = append(ts, v.S)
+				continue
+			}
+			if v.K == kPtr {
+				ts = append(ts, v.Ref)
+				continue
+			}
 			if !isIntLike(v) {
 				e.fail("spec.%s: argument %d must be an integer", name, i)
 			}
@@ -703,6 +715,37 @@ func findField(st *types.Struct, name string) (int, []int) {
 		}
 	}
 	return -1, nil
+}
+
+// fnTerm gives a function value an integer identity. A static function gets
+// a literal derived from its name, and the facts its contract states about
+// the function value itself (fnfact clauses, with "self" bound to it).
+func (c *FnCtx) fnTerm(v Val) string {
+	if v.Fn == nil {
+		return v.S
+	}
+	if len(v.Bind) != 0 {
+		bail("closure used as a spec argument")
+	}
+	name := v.Fn.String()
+	h := hash8(name)
+	id, _ := new(big.Int).SetString(h, 16)
+	id.Add(id, big.NewInt(1<<40))
+	lit := bigNum(id)
+	if c.fnFacts == nil {
+		c.fnFacts = map[string]bool{}
+	}
+	if !c.fnFacts[name] {
+		c.fnFacts[name] = true
+		if con := c.eng.contractFor(name); con != nil {
+			for _, f := range con.FnFacts {
+				ec := &evalCtx{c: c, st: c.entry, preds: con.Preds, bound: map[string]Val{"self": mathInt(lit)}}
+				c.assumeRaw(ec.boolOf(f.Expr))
+				c.eng.noteAssumed(con)
+			}
+		}
+	}
+	return lit
 }
 
 // loadQuiet reads memory without adding nil obligations (contract reads).
